@@ -16,6 +16,7 @@ Val (spec):    None | bool | int | {"f": float-hex} | str | {"e": [enum, member]
 Graph spec:    {"nodes": [{"cls", "values": [[name, Val]] (keyword order), "meta": None|bool,
                 "pre": [idx], "init": [idx], "task": idx|None}]}
 """
+import copy
 import struct
 
 WORDS = ["a", "b", "x", "yy", "model", "lr", "bm25", "é", "中文", "", "a b", "x/y", "k1", "zz9", "Abc", "~", "naïve"]
@@ -85,10 +86,23 @@ def gen_scalar(rng, ty, lib):
     raise ValueError(ty)
 
 
+# set by a check (C02) that wants nested-container defaults in its class libraries; off: the random stream of the other checks is unchanged
+NESTED_DEFAULTS = False
+
+
 def gen_plain_default(rng, ty, lib):
     """a default value without configuration objects"""
     if ty == "float" and rng.random() < 0.3:
         return rng.choice([0, 1, 2, 10, -1])  # `x: Param[float] = 1`: the literal keeps its Python type (int)
+    if NESTED_DEFAULTS and isinstance(ty, dict) and ("list" in ty or "dict" in ty):
+        # `xs: Param[List[List[C]]] = [[]]`, `d: Param[Dict[str, List[C]]] = {"k": []}`: a default whose inner containers can
+        # receive meta-flagged members (the comparison with the default drops ignored members at EVERY level)
+        inner = ty.get("list") or ty.get("dict")
+        if isinstance(inner, dict) and ("list" in inner or "dict" in inner) and has_cfg(inner) and rng.random() < 0.7:
+            one = gen_plain_default(rng, inner, lib)
+            if "list" in ty:
+                return {"l": [one] + ([gen_plain_default(rng, inner, lib)] if rng.random() < 0.3 else [])}
+            return {"d": [[k, gen_plain_default(rng, inner, lib)] for k in rng.sample(KEYS, rng.choice([1, 2]))]}
     if isinstance(ty, dict) and "list" in ty:
         if has_cfg(ty["list"]) or rng.random() < 0.5:
             return {"l": []}
@@ -255,6 +269,15 @@ def gen_library(rng, tag, n_classes=None, unamb=False, with_deprecated=False, wi
             an = next((a for a in ["nxt", "peer", "back"] if a not in used), None)
             if an:
                 args.append({"name": an, "decl": "param", "ty": {"cfg": name, "fwd": True}, "optional": True})
+        if NESTED_DEFAULTS and cfg_names and rng.random() < 0.5:
+            # a parameter whose declared default is a container of empty containers of configurations
+            cn = rng.choice(cfg_names)
+            if rng.random() < 0.5:
+                args.append({"name": f"nl{i}", "decl": "param", "optional": False, "ty": {"list": {"list": {"cfg": cn}}},
+                             "default": {"l": [{"l": []}] * rng.choice([1, 2])}})
+            else:
+                args.append({"name": f"nd{i}", "decl": "param", "optional": False, "ty": {"dict": {"list": {"cfg": cn}}},
+                             "default": {"d": [[k, {"l": []}] for k in rng.sample(KEYS, rng.choice([1, 2]))]}})
         classes.append({"name": name, "xpmid": f"{pkg}.c{i}", "parent": parent, "kind": kind, "deprecated": False, "args": args})
         if kind == "config":  # a task-typed parameter only accepts a *submitted* task: not generated here
             cfg_names.append(name)
@@ -545,6 +568,11 @@ class GraphGen:
                                 tn["values"] = [kv for kv in tn["values"] if kv[0] != aa["name"]] + [[aa["name"], gen_scalar(rng, aa["ty"], self.lib)]]
                     node["values"].append([a["name"], v])
                     continue
+            elif NESTED_DEFAULTS and "default" in a and isinstance(a["default"], dict) and any(
+                    isinstance(x, dict) and ("l" in x or "d" in x)
+                    for x in a["default"].get("l", []) + [kv[1] for kv in a["default"].get("d", [])]) and rng.random() < 0.6:
+                node["values"].append([a["name"], copy.deepcopy(a["default"])])  # explicitly the nested default: inner containers to edit
+                continue
             elif "default" in a and rng.random() < 0.4:
                 if rng.random() < 0.5:
                     node["values"].append([a["name"], a["default"]])  # explicitly the default
